@@ -122,6 +122,13 @@ func (c02) Gen(rng *rand.Rand, tier string, idx int) Case {
 		ooo := []int64{0, size / 2, size, 2*size + 1}[rng.Intn(4)]
 		late := []int64{0, 1, size / 2, size, 3 * size, 20 * size}[rng.Intn(6)]
 		c.Cfg = [][]string{{"kind", "tumbling"}, {"mode", "et"}, {"size", itoa(size)}, {"ooo", itoa(ooo)}, {"late", itoa(late)}, {"now", "0"}}
+		if rng.Intn(10) == 0 { // IDLETIMEOUT: a ticker update advances the watermark from the wall clock (hour-sized windows keep the trigger loop short)
+			size = 3_600_000_000_000
+			ooo = []int64{0, size / 2, size}[rng.Intn(3)]
+			late = []int64{0, size, 3 * size}[rng.Intn(3)]
+			c.Cfg = [][]string{{"kind", "tumbling"}, {"mode", "et"}, {"size", itoa(size)}, {"ooo", itoa(ooo)}, {"late", itoa(late)}, {"now", "0"}, {"idle", "1"}}
+			c.Stat = append(c.Stat, "idle-timeout")
+		}
 		if rng.Intn(12) == 0 { // TIMEUNIT not declared: numeric timestamps are unplaceable, time.Time values still work
 			c.Cfg = append(c.Cfg, []string{"tsunit", "0"})
 			c.Stat = append(c.Stat, "no-timeunit")
